@@ -60,7 +60,7 @@ impl Family for C17Family {
             pre[0].rp_id = crate::model::b64url(&r.bytes(32));
             pre[0].user_handle = Some(r.bytes_range(1, 16));
             pre[0].counter = Some(0);
-            pre[0].key_layout = 0;
+            pre[0].key_layout = *r.pick(&[0u8, 0, 1, 2, 3]);
             c.prelude = pre;
         }
         let mut actor = gen_actor(&mut r);
@@ -139,6 +139,17 @@ impl Family for C17Family {
                 }
             }
             actor.ops.push(op);
+        }
+        // one run in eight: the browser's probe - register - sign flow on one token: an authentication with a
+        // handle the token does not know yet, the registration of that very handle, the authentication again
+        if r.chance(1, 8) {
+            let (h, app) = (r.bytes_range(1, 64), r.bytes(32));
+            let auth = |r: &mut Rng| OpKind::U2fAuthenticate { challenge: r.bytes(32), application: Some(app.clone()), handle: IdRef::Unknown(h.clone()), counter: r.below(1000) as u32, presence: 1, p1: 3, le: false };
+            let probe = auth(&mut r);
+            let sign = auth(&mut r);
+            actor.ops.push(plain_op(probe));
+            actor.ops.push(plain_op(OpKind::U2fRegister { challenge: r.bytes(32), application: app.clone(), handle: h.clone(), le: false }));
+            actor.ops.push(plain_op(sign));
         }
         c.actors.push(actor);
         Scenario { family: "C17".into(), batch: if faulty { "faults" } else { "strict" }.into(), seed: master, index, body: Body::Ceremony(c) }
